@@ -264,6 +264,13 @@ module Coq_Pos =
     | XO p -> XO (mul p y)
     | XH -> y
 
+  (** val iter : ('a1 -> 'a1) -> 'a1 -> positive -> 'a1 **)
+
+  let rec iter f x = function
+  | XI n' -> f (iter f (iter f x n') n')
+  | XO n' -> iter f (iter f x n') n'
+  | XH -> f x
+
   (** val compare_cont : comparison -> positive -> positive -> comparison **)
 
   let rec compare_cont r x y =
@@ -493,6 +500,18 @@ module Z =
        | Zpos y' -> Zneg (Coq_Pos.mul x' y')
        | Zneg y' -> Zpos (Coq_Pos.mul x' y'))
 
+  (** val pow_pos : z -> positive -> z **)
+
+  let pow_pos z0 =
+    Coq_Pos.iter (mul z0) (Zpos XH)
+
+  (** val pow : z -> z -> z **)
+
+  let pow x = function
+  | Z0 -> Zpos XH
+  | Zpos p -> pow_pos x p
+  | Zneg _ -> Z0
+
   (** val compare : z -> z -> comparison **)
 
   let compare x y =
@@ -508,6 +527,13 @@ module Z =
       (match y with
        | Zneg y' -> compOpp (Coq_Pos.compare x' y')
        | _ -> Lt)
+
+  (** val leb : z -> z -> bool **)
+
+  let leb x y =
+    match compare x y with
+    | Gt -> false
+    | _ -> true
 
   (** val ltb : z -> z -> bool **)
 
@@ -530,11 +556,78 @@ module Z =
                  | Zneg q -> Coq_Pos.eqb p q
                  | _ -> false)
 
+  (** val max : z -> z -> z **)
+
+  let max n0 m =
+    match compare n0 m with
+    | Lt -> m
+    | _ -> n0
+
+  (** val min : z -> z -> z **)
+
+  let min n0 m =
+    match compare n0 m with
+    | Gt -> m
+    | _ -> n0
+
+  (** val abs : z -> z **)
+
+  let abs = function
+  | Zneg p -> Zpos p
+  | x -> x
+
   (** val of_N : n -> z **)
 
   let of_N = function
   | N0 -> Z0
   | Npos p -> Zpos p
+
+  (** val pos_div_eucl : positive -> z -> z * z **)
+
+  let rec pos_div_eucl a b =
+    match a with
+    | XI a' ->
+      let (q, r) = pos_div_eucl a' b in
+      let r' = add (mul (Zpos (XO XH)) r) (Zpos XH) in
+      if ltb r' b
+      then ((mul (Zpos (XO XH)) q), r')
+      else ((add (mul (Zpos (XO XH)) q) (Zpos XH)), (sub r' b))
+    | XO a' ->
+      let (q, r) = pos_div_eucl a' b in
+      let r' = mul (Zpos (XO XH)) r in
+      if ltb r' b
+      then ((mul (Zpos (XO XH)) q), r')
+      else ((add (mul (Zpos (XO XH)) q) (Zpos XH)), (sub r' b))
+    | XH -> if leb (Zpos (XO XH)) b then (Z0, (Zpos XH)) else ((Zpos XH), Z0)
+
+  (** val div_eucl : z -> z -> z * z **)
+
+  let div_eucl a b =
+    match a with
+    | Z0 -> (Z0, Z0)
+    | Zpos a' ->
+      (match b with
+       | Z0 -> (Z0, a)
+       | Zpos _ -> pos_div_eucl a' b
+       | Zneg b' ->
+         let (q, r) = pos_div_eucl a' (Zpos b') in
+         (match r with
+          | Z0 -> ((opp q), Z0)
+          | _ -> ((opp (add q (Zpos XH))), (add b r))))
+    | Zneg a' ->
+      (match b with
+       | Z0 -> (Z0, a)
+       | Zpos _ ->
+         let (q, r) = pos_div_eucl a' b in
+         (match r with
+          | Z0 -> ((opp q), Z0)
+          | _ -> ((opp (add q (Zpos XH))), (sub b r)))
+       | Zneg b' -> let (q, r) = pos_div_eucl a' (Zpos b') in (q, (opp r)))
+
+  (** val modulo : z -> z -> z **)
+
+  let modulo a b =
+    let (_, r) = div_eucl a b in r
 
   (** val quotrem : z -> z -> z * z **)
 
@@ -581,6 +674,13 @@ let zS =
     sneg = (Obj.magic Z.opp); sfma = (fun a b c ->
     Obj.magic Z.add (Z.mul (Obj.magic a) (Obj.magic b)) c); sdiv =
     (Obj.magic Z.quot); seqb = (Obj.magic Z.eqb); sltb = (Obj.magic Z.ltb) }
+
+(** val wrap : z -> z -> z **)
+
+let wrap n0 x =
+  let m = Z.pow (Zpos (XO XH)) n0 in
+  let r = Z.modulo x m in
+  if Z.ltb r (Z.pow (Zpos (XO XH)) (Z.sub n0 (Zpos XH))) then r else Z.sub r m
 
 (** val zC : scalar **)
 
@@ -1064,6 +1164,16 @@ let wr_maskstore _ w m off v =
 let wr_store1 _ off x =
   { woff = off; wlen = (Stdlib.Int.succ 0); won = (fun _ -> true); wval =
     (fun _ -> x) }
+
+(** val store : scalar -> buf -> int -> int -> vec -> buf **)
+
+let store s c off w v =
+  apply_wr s c (wr_store s off w v)
+
+(** val store1 : scalar -> buf -> int -> t -> buf **)
+
+let store1 s c off x =
+  apply_wr s c (wr_store1 s off x)
 
 (** val sum_from : scalar -> int -> int -> (int -> t) -> t -> t **)
 
@@ -1568,6 +1678,171 @@ let tmatmul_wrs s c t0 tl tr m k n0 a b =
 let tmatmul s c t0 tl tr m k n0 a b c0 =
   run_wrs s c0 (tmatmul_wrs s c t0 tl tr m k n0 a b)
 
+type sops = { s_un : (int -> t -> t); s_bin : (int -> t -> t -> t) }
+
+type vops = { v_un : (int -> vec -> vec); v_bin : (int -> vec -> vec -> vec) }
+
+type expr =
+| ELeaf of int
+| EConst of t
+| EUn of int * expr
+| EBin of int * expr * expr
+
+type mem = int -> buf
+
+(** val eval_s : scalar -> sops -> mem -> expr -> int -> t **)
+
+let rec eval_s s o m e i =
+  match e with
+  | ELeaf k -> m k i
+  | EConst c -> c
+  | EUn (op, e1) -> o.s_un op (eval_s s o m e1 i)
+  | EBin (op, e1, e2) -> o.s_bin op (eval_s s o m e1 i) (eval_s s o m e2 i)
+
+(** val eval_v : scalar -> vops -> mem -> expr -> int -> vec **)
+
+let rec eval_v s v m e i =
+  match e with
+  | ELeaf k -> vload s (m k) i
+  | EConst c -> vbcast s c
+  | EUn (op, e1) -> v.v_un op (eval_v s v m e1 i)
+  | EBin (op, e1, e2) -> v.v_bin op (eval_v s v m e1 i) (eval_v s v m e2 i)
+
+(** val upd : scalar -> mem -> int -> buf -> mem **)
+
+let upd _ m d b k =
+  if (=) k d then b else m k
+
+(** val step_vec :
+    scalar -> sops -> vops -> int -> int -> int option -> expr -> mem -> int
+    -> mem **)
+
+let step_vec s _ v w d aop e m i =
+  let rhs = eval_v s v m e i in
+  let val0 =
+    match aop with
+    | Some op -> v.v_bin op (vload s (m d) i) rhs
+    | None -> rhs
+  in
+  upd s m d (store s (m d) i w val0)
+
+(** val step_scal :
+    scalar -> sops -> int -> int option -> expr -> mem -> int -> mem **)
+
+let step_scal s o d aop e m i =
+  let rhs = eval_s s o m e i in
+  let val0 = match aop with
+             | Some op -> o.s_bin op (m d i) rhs
+             | None -> rhs in
+  upd s m d (store1 s (m d) i val0)
+
+(** val assign :
+    scalar -> sops -> vops -> int -> int -> int -> bool -> int option -> expr
+    -> mem -> mem **)
+
+let assign s o v w d n0 boolean aop e m =
+  if boolean
+  then fold_left (step_scal s o d aop e) (seq 0 n0) m
+  else let n1 = mul (Nat.div n0 w) w in
+       fold_left (step_scal s o d aop e) (seq n1 (sub n0 n1))
+         (fold_left (step_vec s o v w d aop e) (loop_starts 0 n1 w) m)
+
+(** val vops_of : scalar -> sops -> vops **)
+
+let vops_of _ o =
+  { v_un = (fun op a l -> o.s_un op (a l)); v_bin = (fun op a b l ->
+    o.s_bin op (a l) (b l)) }
+
+(** val b2z : bool -> z **)
+
+let b2z = function
+| true -> Zpos XH
+| false -> Z0
+
+(** val int_un : z -> int -> z -> z **)
+
+let int_un bits op x =
+  (fun fO fS n -> if n=0 then fO () else fS (n-1))
+    (fun _ -> wrap bits (Z.opp x))
+    (fun n0 ->
+    (fun fO fS n -> if n=0 then fO () else fS (n-1))
+      (fun _ -> wrap bits (Z.abs x))
+      (fun n1 ->
+      (fun fO fS n -> if n=0 then fO () else fS (n-1))
+        (fun _ -> b2z (Z.eqb x Z0))
+        (fun _ -> x)
+        n1)
+      n0)
+    op
+
+(** val int_bin : z -> int -> z -> z -> z **)
+
+let int_bin bits op x y =
+  (fun fO fS n -> if n=0 then fO () else fS (n-1))
+    (fun _ -> wrap bits (Z.add x y))
+    (fun n0 ->
+    (fun fO fS n -> if n=0 then fO () else fS (n-1))
+      (fun _ -> wrap bits (Z.sub x y))
+      (fun n1 ->
+      (fun fO fS n -> if n=0 then fO () else fS (n-1))
+        (fun _ -> wrap bits (Z.mul x y))
+        (fun n2 ->
+        (fun fO fS n -> if n=0 then fO () else fS (n-1))
+          (fun _ -> wrap bits (Z.quot x y))
+          (fun n3 ->
+          (fun fO fS n -> if n=0 then fO () else fS (n-1))
+            (fun _ -> Z.min x y)
+            (fun n4 ->
+            (fun fO fS n -> if n=0 then fO () else fS (n-1))
+              (fun _ -> Z.max x y)
+              (fun n5 ->
+              (fun fO fS n -> if n=0 then fO () else fS (n-1))
+                (fun _ -> b2z (Z.ltb x y))
+                (fun n6 ->
+                (fun fO fS n -> if n=0 then fO () else fS (n-1))
+                  (fun _ -> b2z (Z.ltb y x))
+                  (fun n7 ->
+                  (fun fO fS n -> if n=0 then fO () else fS (n-1))
+                    (fun _ -> b2z (Z.leb x y))
+                    (fun n8 ->
+                    (fun fO fS n -> if n=0 then fO () else fS (n-1))
+                      (fun _ -> b2z (Z.leb y x))
+                      (fun n9 ->
+                      (fun fO fS n -> if n=0 then fO () else fS (n-1))
+                        (fun _ -> b2z (Z.eqb x y))
+                        (fun n10 ->
+                        (fun fO fS n -> if n=0 then fO () else fS (n-1))
+                          (fun _ -> b2z (negb (Z.eqb x y)))
+                          (fun n11 ->
+                          (fun fO fS n -> if n=0 then fO () else fS (n-1))
+                            (fun _ ->
+                            b2z ((&&) (negb (Z.eqb x Z0)) (negb (Z.eqb y Z0))))
+                            (fun n12 ->
+                            (fun fO fS n -> if n=0 then fO () else fS (n-1))
+                              (fun _ ->
+                              b2z
+                                ((||) (negb (Z.eqb x Z0)) (negb (Z.eqb y Z0))))
+                              (fun _ -> x)
+                              n12)
+                            n11)
+                          n10)
+                        n9)
+                      n8)
+                    n7)
+                  n6)
+                n5)
+              n4)
+            n3)
+          n2)
+        n1)
+      n0)
+    op
+
+(** val int_sops : z -> sops **)
+
+let int_sops bits =
+  { s_un = (Obj.magic int_un bits); s_bin = (Obj.magic int_bin bits) }
+
 (** val run_matmul_Z :
     cfg -> ety -> int -> int -> int -> z list -> z list -> z list **)
 
@@ -1647,3 +1922,15 @@ let run_tmatmul_C c t0 tl tr m k n0 a b =
       Obj.magic ((Zpos (XI (XO (XO (XO (XI (XO (XI (XI (XI (XI (XI (XI (XO
         (XI (XO (XO XH))))))))))))))))), Z0)))
     (seq 0 (add (mul m n0) (Stdlib.Int.succ (Stdlib.Int.succ 0))))
+
+(** val run_assign_Z :
+    z -> int -> int -> bool -> int option -> expr -> z list list -> z list **)
+
+let run_assign_Z bits w n0 boolean aop e tensors =
+  let m = fun k i ->
+    nth i (nth k tensors []) (Zpos (XI (XO (XO (XO (XI (XO (XI (XI (XI (XI
+      (XI (XI (XO (XI (XO (XO XH)))))))))))))))))
+  in
+  let o = int_sops bits in
+  map (Obj.magic assign zS o (vops_of zS o) w 0 n0 boolean aop e m 0)
+    (seq 0 (add n0 (Stdlib.Int.succ (Stdlib.Int.succ 0))))
